@@ -46,6 +46,7 @@ RULES = {
         (r'\bInto<', 'VInto<'),
         (r'\bfn from\(', 'fn vfrom('),
         (r'\bfn try_from\(', 'fn vtry_from('),
+        (r'::try_from\(', '::vtry_from('),
         (r'\bfn into\(', 'fn vinto('),
     ],
 }
@@ -149,7 +150,7 @@ class Unit:
             elif kw == 'mustfail':
                 self._pending_mustfail = True
                 i += 1
-            elif kw in ('fn', 'item', 'implhdr', 'arm', 'guard', 'slice', 'macroarm', 'sig', 'callslice'):
+            elif kw in ('fn', 'item', 'implhdr', 'arm', 'guard', 'slice', 'macroarm', 'sig', 'callslice', 'quote'):
                 # collect block up to //@end (implhdr/guard are one-liners without block)
                 block = []
                 j = i + 1
@@ -198,7 +199,7 @@ class Unit:
         s = self.src(file)
         lo, hi = 0, len(s.text)
         if container not in ('-', ''):
-            for c in container.split('>>'):
+            for c in container.split(' @@ '):
                 _, o, cl = s.find_container(c.strip(), lo, hi)
                 lo, hi = o + 1, cl
         f = s.find_fn(name, lo, hi)
@@ -221,6 +222,7 @@ class Unit:
         proofs = []
         closures = {}
         forloops = {}
+        forusing = {}
         for h, body in secs:
             if h.startswith('ret '):
                 ret = h[4:].strip()
@@ -231,7 +233,10 @@ class Unit:
             elif h.startswith('loop '):
                 loops[int(h[5:])] = body
             elif h.startswith('forloop '):
-                forloops[int(h[8:])] = body
+                fm = re.match(r'forloop\s+(\d+)(?:\s+using\s+(\w+))?$', h)
+                forloops[int(fm.group(1))] = body
+                if fm.group(2):
+                    forusing[int(fm.group(1))] = fm.group(2)
             elif h.startswith('proof '):
                 proofs.append((h[6:].strip(), body))
             elif h.startswith('closure '):
@@ -280,9 +285,10 @@ class Unit:
             hdr = s.text[lp['kw'] + 3:lp['open']]
             hm = s.masked[lp['kw'] + 3:lp['open']]
             mi = re.search(r'\bin\b', hm)
-            pat, expr = hdr[:mi.start()].strip(), hdr[mi.end():].strip()
-            new = 'let mut vx_it%d = (%s).into_iter();\nloop\n%s\n{ match vx_it%d.next() { None => { break; } Some(%s) => {' % (
-                k, expr, '\n'.join(l for _, l in lines), k, pat)
+            pat, expr = hdr[:mi.start()].strip(), self.apply_rules(hdr[mi.end():].strip(), where)
+            itexpr = '%s(%s)' % (forusing[k], expr) if k in forusing else '(%s).into_iter()' % expr
+            new = 'let mut vx_it%d = %s;\nloop\n%s\n{ match vx_it%d.next() { None => { break; } Some(%s) => {' % (
+                k, itexpr, '\n'.join(l for _, l in lines), k, pat)
             repl.append((lp['kw'] - b0, lp['open'] + 1 - b0, new))
             repl.append((lp['close'] - b0, lp['close'] - b0, ' } } '))
             self.rewrites.append(('R-for desugar for-loop %d over %s' % (k, expr), where, 1))
@@ -662,8 +668,87 @@ class Unit:
                                            ('spec', base, tline, name, 'C18.%s-forwarded-to-%s' % (pn, cname), ['C18']), name + '_slice'))
                 self.lines.append(Line('    match %s { Err(e) => { if vx_nondet() { return Err(e); } } Ok(_) => {} } }' % call, org, name + '_slice'))
 
+    # ---------------------------------------------------------------------
+    def _quote_text(self, s, f, k):
+        """token text of the k-th `quote! { .. }` of function f (source order)"""
+        qs = []
+        for m in re.finditer(r'\bquote!\s*\{', s.masked[f['open']:f['close']]):
+            o = f['open'] + m.end() - 1
+            qs.append((o, match_close(s.masked, o)))
+        if k >= len(qs):
+            raise ExtractError('%s: fn has %d quote! blocks, %d requested' % (s.path, len(qs), k))
+        o, c = qs[k]
+        return s.text[o + 1:c], o + 1
+
+    def _d_quote(self, rest, block, base, tline):
+        """R-quote: instantiate a quote! template of sv-parser-macros.
+        //@bind #var => TEXT | quote K | each quote K with #v in A B C"""
+        parts = [p.strip() for p in rest.split('|')]
+        file, fn, k = parts[0], parts[1], int(parts[2])
+        as_name = None
+        for p_ in parts[3:]:
+            if p_.startswith('as '):
+                as_name = p_[3:].strip()
+        s = self.src(file)
+        f = s.find_fn(fn)
+        binds = []
+        subs = []
+        for ln, l in block:
+            st = l.strip()
+            if st.startswith('//@bind '):
+                m = re.match(r'//@bind\s+(#\w+)\s*=>\s*(.*)$', st)
+                binds.append((m.group(1), m.group(2).strip()))
+            elif st.startswith('//@sub '):
+                subs.append(self._parse_sub(st[3:].strip()))
+            elif st:
+                raise ExtractError('%s:%d: unknown line in quote block' % (base, ln))
+
+        def inst(text, env):
+            # longest names first so that #name does not clobber #name_x
+            for var, val in sorted(env, key=lambda b: -len(b[0])):
+                if var not in text:
+                    continue
+                m = re.match(r'each quote (\d+) with (#\w+) in (.*)$', val)
+                if m:
+                    t, _ = self._quote_text(s, f, int(m.group(1)))
+                    rep = '\n'.join(inst(t, [(m.group(2), v), (var, '')] + [b for b in env if b[0] != var]) for v in m.group(3).split())
+                elif re.match(r'quote \d+$', val):
+                    t, _ = self._quote_text(s, f, int(val.split()[1]))
+                    rep = inst(t, [b for b in env if b[0] != var])
+                else:
+                    rep = val
+                text = re.sub(re.escape(var) + r'\b', lambda _m: rep, text)
+            return text
+        text, off = self._quote_text(s, f, k)
+        where = '%s:%d' % (file, s.line_of(off))
+        text = inst(text, binds)
+        left = re.findall(r'#\w+', text)
+        if left:
+            raise ExtractError('%s: unbound template variables %s' % (where, sorted(set(left))))
+        text = self.apply_subs(self.apply_rules(text, where), subs, where)
+        self.rewrites.append(('R-quote instantiate quote! #%d of %s with %s' % (k, fn, dict(binds)), where, 1))
+        if as_name:
+            # register the instantiated template as a virtual source: //@fn, //@implhdr ... can
+            # then splice contracts into the generated impls exactly as for ordinary files
+            self.sources['quote:' + as_name] = Source(file, text, line_base=s.line_of(off) - 1)
+        else:
+            self.emit_repo(s, off, off + 1, text=text, fn='quote')
+
     def _d_macroarm(self, rest, block, base, tline):
-        file, name, k = [p.strip() for p in rest.split('|')[:3]]
+        mparts = [p.strip() for p in rest.split('|')]
+        file, name, k = mparts[:3]
+        as_name = None
+        for p_ in mparts[3:]:
+            if p_.startswith('as '):
+                as_name = p_[3:].strip()
+        wrap = None
+        nb = []
+        for ln_, l_ in block:
+            if l_.strip().startswith('//@wrap '):
+                wrap = l_.strip()[8:]
+            else:
+                nb.append((ln_, l_))
+        block = nb
         s = self.src(file)
         a, b = s.find_item('macro_rules', name)
         o = s.masked.find('{', a)
@@ -691,4 +776,8 @@ class Unit:
         where = '%s:%d' % (file, s.line_of(t))
         text = self.apply_subs(self.apply_rules(s.text[t + 1:te], where), self._simple_subs(block), where)
         self.rewrites.append(('R-macro transcriber of %s arm %d' % (name, k), where, 1))
-        self.emit_repo(s, t + 1, te, text=text, fn='macro')
+        if as_name:
+            vt = (wrap or 'fn %s()' % as_name) + ' {' + text + '}\n'
+            self.sources['macro:' + as_name] = Source(file, vt, line_base=s.line_of(t + 1) - 1)
+        else:
+            self.emit_repo(s, t + 1, te, text=text, fn='macro')
